@@ -241,6 +241,24 @@ CLAIMED = {
         technique="TLA+ exact-arithmetic kernel spec model-checked by TLC + TLC trace validation of records taken from the real joints",
         ref="5/C05",
     ),
+    "C06": dict(
+        level="model_checking",
+        text="ContactKernel.tla: (P) sphere against a plane of constant orientation - gap = signed distance of the sphere surface, slip = "
+             "tangential relative velocity of the touching material points scaled by the anisotropy, all rates and derivatives defined by exact "
+             "stencils along the flow; (S) sphere against sphere on configurations with integer centre distance in exact rational arithmetic, "
+             "derivatives from differentiating the polynomial identities d^2 = r.r, m^2 = w.w; (A) the System contact interface (every method "
+             "returns a value or is declared unimplemented; the quantities of the hierarchy must be values). TLC checks the definitions against "
+             "closed forms and geometric facts on a lattice. Real Sphere2Plane / Sphere2Sphere contacts between rigid bodies, point masses, "
+             "frames and nodal rod cross-sections (7 + 7 pairings, friction on/off, radii, anisotropy, offsets) are assembled and evaluated at "
+             "lattice states; every record (g_N, g_N_dot, g_N_ddot, gamma_F, gamma_F_dot, W_N, W_F, g_N_q, g_N_dot_q, gamma_F_q, gamma_F_dot_q, "
+             "gamma_F_dot_u, Wla_N_q, Wla_F_q) is recomputed by TLC from the kernel; all 20 System contact methods are called on every system kind.",
+        note="Planes: octahedral orientation, polynomial translation (the property's quantifier). Sphere-sphere: Pythagorean separations with "
+             "integer |t2_ref x r12|, axis-aligned reference basis from assembly, the convention t1 || t2_ref x n is part of the spec; with a "
+             "sphere on a moving frame the same coordinates are evaluated at two times. Body orientations octahedral (integer quaternions). "
+             "A corrupted record must be rejected (self-test).",
+        technique="TLA+ exact-arithmetic kernel spec model-checked by TLC + TLC trace validation of records taken from the real contacts",
+        ref="5/C06",
+    ),
 }
 
 NOT_APPLICABLE = {
